@@ -8,6 +8,23 @@
 // slots (c1,n1) (c1,n2) (c2,n1) — n1 collides across the classes. One exploration per assignment of
 // restriction flags to (c1, c2); the four explorations cover every flag combination both as the
 // fixture class c1 and as the class c2 issued on the path.
+//
+// Oracle structure:
+//   - Apply (step level): a message the property forbids to succeed ("!"-prefixed op names: non-owner
+//     transfer/edit/burn, non-creator mint into a mint-restricted class, mint / issue over a live id,
+//     class handover by a non-creator) that is accepted is a finding. Then the nominal effect of the
+//     accepted message is applied to the reference, the module's class + collection view is read,
+//     every difference is a finding (owner, token set, creator, metadata of an update-restricted
+//     class, metadata fields the owner did not ask to change), and the reference is re-synchronised
+//     to the view so that one defect is reported once per path and not again in every later state.
+//     Rejections are never findings (the property promises no operation's success).
+//   - Check (state level): the module's reports agree with each other — supply = #collection =
+//     sum of owners' balances, every token under exactly one owner in the owner index and that owner
+//     equals the collection's and the token query's, class list = issued classes, ids stable.
+//
+// The restriction flags of the reference are those the class was issued with; a drift of the flags
+// in the class record is not a finding by itself, its consequences are (with the state of the
+// record as a signature discriminator).
 package c14
 
 import (
@@ -749,7 +766,11 @@ func Parts() []mc.Part {
 	return ps
 }
 
+// Depths. The closed system is finite and small (strong dedup): the number of distinct states stops
+// growing at depth 9 (15840 / 15840 / 6174 / 6174 states per part, the same at depth 10), i.e. the
+// thorough tier visits every reachable state of the closed system and tries every operation of the
+// alphabet in each of them; the quick tier covers all histories of up to 5 messages after the fixture.
 const (
-	depthQuick    = 4
-	depthThorough = 5
+	depthQuick    = 5
+	depthThorough = 9
 )
